@@ -309,6 +309,9 @@ def gen_cases(tier: str, seed: int) -> List[Dict]:
         (("q0", "q1"), [[2, 0], [1, 1], [0, 2], [3, 0], [0, 1]]),
         (("q1", "q12"), [[1, 0], [0, 1], [0, 0], [2, 1]]),
         (("q0", "q1", "q2"), [[1, 0, 0], [0, 1, 0], [0, 0, 1], [1, 1, 1]]),
+        # index order and string order of the names disagree (q10 < q2 as text), exponents not symmetric under the swap
+        (("q2", "q10"), [[2, 1], [1, 0], [0, 0], [0, 3]]),
+        (("q3", "q9", "q11"), [[1, 0, 2], [0, 1, 0], [2, 0, 0], [0, 0, 1]]),
     ]
     shapes = [(), (), (2,), (2, 2)] if quick else [(), (1,), (2,), (3,), (2, 2), (1, 2), (2, 1, 2)]
     reps = 5 if quick else 60
